@@ -504,6 +504,21 @@ theorem good_bodyStmts (g : Globals) (resTy : Ty) : ∀ (l : List BodyStmt) (rc 
 
 theorem lInv_init : LInv St.init := by simp [LInv, St.init, Block.fresh, setLabels]
 
+/-- C10 (uniqueness) for one function, as a `List.Nodup` statement -/
+theorem C10_nodup_function (g : Globals) (f : FnDecl) : (setLabels (functionBody g f).root.context).Nodup := by
+  have hgood : Good St.init (functionBody g f) := by
+    unfold functionBody
+    dsimp only
+    have h1 := good_esteps (esteps_initParams f.params St.init paramInv_init)
+    generalize initParams f.params St.init = s1 at h1
+    have h2 := h1.trans (good_bodyStmts g f.result.toTy f.body false s1)
+    generalize bodyStmts g f.result.toTy f.body false s1 = q at h2
+    obtain ⟨s2, rc⟩ := q
+    cases rc
+    · exact h2.trans (good_estep (EStep.addErr _ _ _ _ _))
+    · exact h2
+  exact (hgood lInv_init).1.1
+
 /-- C10 (uniqueness) for one function: no label is set twice -/
 theorem C10_unique_function (g : Globals) (f : FnDecl) :
     nodupB (setLabels (functionBody g f).root.context) = true := by
